@@ -136,6 +136,16 @@ func main() {
 			writeFile(*out, "Sites_gen.v", genSites(core))
 		case "pure":
 			writeFile(*out, "Pure_gen.v", genPure(core))
+		case "inout":
+			io := computeInout(core)
+			for fo, ps := range io.params {
+				var is []int
+				for i := range ps {
+					is = append(is, i)
+				}
+				sort.Ints(is)
+				fmt.Println(fo.FullName(), is)
+			}
 		case "purex2j":
 			for _, sp := range subs {
 				if sp.name == "x2j" && strings.HasSuffix(sp.dir, "x2j-wrapper") {
